@@ -7,7 +7,7 @@ recognisers for the declaration subset for the other five (tools/c10_syntax.py).
 input unless one of the `Known_*` classes of TsV.C10 (same predicates, evaluated here on the implementation's
 reconciled ParsedData) explains the rejection.
 """
-import re, sys, types
+import re, sys, types, unicodedata
 from common import *
 from syn_gen import *
 import gen as genmod
@@ -23,6 +23,11 @@ TRUSTED = [
     "keyword policy of the oracles: Swift reserved words are rejected in declaring positions, as init labels only inout/var/let, "
     "lower-case ones in type position; TypeScript/Kotlin/Scala/Go reserved words in identifier position are accepted and counted "
     "(the property demands escaping only where the back end promises it)",
+    "identifier alphabets of the five recognisers (c10_syntax.id_start / id_part): Go = Unicode letters (L*), `_`, decimal digits (Nd); Kotlin = "
+    "L*, Nl, `_`, Nd; TypeScript = ID_Start / ID_Continue computed from Python's unicodedata categories plus the Other_ID_* lists; Swift = the "
+    "identifier-head / identifier-character ranges of the language reference; Scala = the union of the specification (letters, Nl, ASCII digits) "
+    "and the scanner's Character.isUnicodeIdentifierPart; a non-ASCII character outside these (and outside comments and literals) is a lexical "
+    "error in Go, Kotlin and TypeScript.  Escape sequences inside string literals are not validated",
     "lexer automata and bracket discipline of TsV/Lemmas/C10_Lex.lean (`wellBracketed`) as the specification of 'all "
     "delimiters, string literals and comments are closed'",
 ]
@@ -100,6 +105,29 @@ def printed_type_names(d):
     return acc
 
 
+def printed_identifier_names(d):
+    """every name some back end prints in an identifier position: type names, field / variant / constant names (original and
+    renamed), generic parameters, tag and content keys"""
+    acc = printed_type_names(d)
+    for f in all_fields(d):
+        acc += [f["id"]["o"], f["id"]["r"]]
+    for k in ("structs", "enums", "aliases"):
+        for it in d[k]:
+            acc += it["generic_types"]
+    for c in d["consts"]:
+        acc += [c["id"]["o"], c["id"]["r"]]
+    for e in d["enums"]:
+        for v in e["variants"]:
+            acc += [v["id"]["o"], v["id"]["r"]]
+        if e["kind"] == "alg":
+            acc += [e["tag"], e["content"]]
+    return acc
+
+
+def ascii_lower(s):
+    return "".join(ch.lower() if ch.isascii() else ch for ch in s)
+
+
 def known_classes(lang, cfg, datas):
     """the `Known_*` predicates of TsV.C10 evaluated on the implementation's reconciled ParsedData: id -> detail"""
     out = {}
@@ -119,8 +147,36 @@ def known_classes(lang, cfg, datas):
             dig = [r for r, sn in zip(alg, snake(alg)) if sn == "" or sn[0].isdigit()]
             if dig:
                 add("python-tag-member-not-identifier", dig)
+            # struct fields: the attribute name is snake(original); snake-casing drops leading underscores
+            fo = [f["id"]["o"] for f in all_fields(d)]
+            fdig = [sn for sn in snake(fo) if sn == "" or sn[0].isdigit()]
+            if fdig:
+                add("field-name-starts-with-digit", fdig)
+        else:
+            # a field `_1x` is a Rust identifier; PascalCase / camelCase (Go's field names, rename_all) drop the underscore, and the
+            # serde name is copied into the member / parameter / property position
+            fdig = sorted({c for f in all_fields(d) for c in (f["id"]["r"], to_pascal(f["id"]["o"])) if c and c[0].isdigit()})
+            if fdig:
+                add("field-name-starts-with-digit", fdig)
         if lang == "kotlin" and d.get("multi_file") and cfg.get("package", "") == "":
             add("kotlin-import-empty-package", [""])
+        if lang != "python":
+            # a Rust identifier (XID_Start XID_Continue*) has characters the target's identifier alphabet lacks; names are copied
+            out_of = sorted({n for n in printed_identifier_names(d) if any(not ch.isascii() and not syn.id_part(lang, ch) for ch in n)})
+            if out_of:
+                add("identifier-outside-target-alphabet", out_of)
+        if lang == "kotlin":
+            # algebraic enums: PascalCase drops the leading underscores, the `_` prefix is given back to ASCII digits only
+            lost = [v["id"]["o"] for e in d["enums"] if e["kind"] == "alg" for v in e["variants"]
+                    if to_pascal(v["id"]["o"]) and not syn.id_start(lang, to_pascal(v["id"]["o"])[0]) and not to_pascal(v["id"]["o"])[0].isascii()]
+            if lost:
+                add("variant-name-starts-with-non-ascii-digit", lost)
+        if lang == "go":
+            # the method receiver of an algebraic enum is the lower-cased (full Unicode mapping) first character of its name
+            rec = [e["id"]["o"] for e in d["enums"] if e["kind"] == "alg" and e["id"]["o"] and not syn.is_identifier("go", e["id"]["o"][0].lower())
+                   and syn.is_identifier("go", e["id"]["o"][0])]
+            if rec:
+                add("go-receiver-lower-case-expansion", rec)
         if lang == "typescript":
             ge = [e["id"]["r"] for e in d["enums"] if e["kind"] == "unit" and e["generic_types"]]
             if ge:
@@ -179,9 +235,28 @@ def explains(kid, detail, lang, rej, text):
     if kid == "python-tag-key-keyword":
         return any(re.match(r"\s+%s: " % re.escape(k), line) for k in detail)
     if kid == "python-tag-member-not-identifier":
-        return any(re.match(r"\s+\S* = %s\Z" % re.escape(json.dumps(r)), line) for r in detail) or rej.what.startswith("CPython: invalid decimal literal")
+        return (any(re.match(r"\s+\S* = %s\Z" % re.escape(json.dumps(r, ensure_ascii=False)), line) for r in detail)
+                or rej.what.startswith("CPython: invalid decimal literal"))
+    if kid == "field-name-starts-with-digit":
+        if lang == "python":
+            return any(re.match(r"\s+%s: " % re.escape(sn), line) for sn in detail)
+        return bool(near) and near[0].isdigit() and any(c == near or c.startswith(near) for c in detail) \
+            and any(re.search(r"(?<![A-Za-z0-9_\"])%s" % re.escape(c), line) for c in detail)
     if kid == "kotlin-import-empty-package":
         return line.startswith("import .")
+    if kid == "identifier-outside-target-alphabet":
+        # the character the recogniser stopped at, together with the character before it, is copied from one of the names
+        # (modulo ASCII case): a combining mark that a case mapping of the back end *produced* is not explained by this class
+        # a character that *begins* one of the names is explained wherever it stands (names are prefixed and concatenated)
+        at = line.find(near) if len(near) == 1 and not near.isascii() else -1
+        # (PascalCase / camelCase take the underscores out of a name)
+        pair = ascii_lower(line[at - 1:at + 1]) if at > 0 else None
+        return at >= 0 and not syn.id_part(lang, near) and any(n.startswith(near) or (pair and (pair in ascii_lower(n) or pair in ascii_lower(n).replace("_", "")))
+                                                                for n in detail)
+    if kid == "variant-name-starts-with-non-ascii-digit":
+        return len(near) >= 1 and not near[0].isascii() and unicodedata.category(near[0]) == "Nd" and any(to_pascal(n).startswith(near[0]) for n in detail)
+    if kid == "go-receiver-lower-case-expansion":
+        return line.startswith("func (") and len(near) == 1 and any(near in n[0].lower() and line.startswith("func (" + n[0].lower()) for n in detail)
     if kid == "typescript-generic-unit-enum":
         return near == "<" and line.startswith("export enum ")
     if kid == "scala-default-underscore":
@@ -202,6 +277,12 @@ WITNESSES = [
     ("dashed-type-name", "scala", {"package": "com.example"}, DASHED),
     ("dashed-type-name", "go", {"package": "proto"}, DASHED),
     ("dashed-type-name", "python", {}, DASHED),
+    ("field-name-starts-with-digit", "python", {}, "#[typeshare]\npub struct S { pub _1x: u8, pub ok: u8 }\n"),
+    ("field-name-starts-with-digit", "go", {"package": "proto"}, "#[typeshare]\npub struct S { pub _1x: u8, pub ok: u8 }\n"),
+    ("field-name-starts-with-digit", "typescript", {}, "#[typeshare]\n#[serde(rename_all = \"camelCase\")]\npub struct S { pub _2fa_code: u8, pub ok: u8 }\n"),
+    ("field-name-starts-with-digit", "kotlin", {"package": "com.example"}, "#[typeshare]\n#[serde(rename_all = \"camelCase\")]\npub struct S { pub _2fa_code: u8, pub ok: u8 }\n"),
+    ("field-name-starts-with-digit", "swift", {}, "#[typeshare]\n#[serde(rename_all = \"camelCase\")]\npub struct S { pub _2fa_code: u8, pub ok: u8 }\n"),
+    ("field-name-starts-with-digit", "scala", {"package": "com.example"}, "#[typeshare]\n#[serde(rename_all = \"camelCase\")]\npub struct S { pub _2fa_code: u8, pub ok: u8 }\n"),
     ("python-tag-key-keyword", "python", {}, "#[typeshare]\n#[serde(tag = \"class\", content = \"content\")]\npub enum E { A(u8) }\n"),
     ("typescript-generic-unit-enum", "typescript", {}, "#[typeshare]\npub enum E<T> { A, #[serde(skip)] P(std::marker::PhantomData<T>) }\n"),
     ("scala-default-underscore", "scala", {"package": "com.example"}, "#[typeshare]\npub struct S { #[serde(default)] pub a: u8 }\n"),
@@ -210,7 +291,18 @@ WITNESSES = [
     ("swift-case-name-not-identifier", "swift", {}, "#[typeshare]\npub enum E { _1, B }\n"),
     ("python-tag-member-not-identifier", "python", {}, "#[typeshare]\n#[serde(tag = \"t\", content = \"c\")]\npub enum E { _1(u8), B }\n"),
     ("kotlin-import-empty-package", "kotlin", {"package": ""}, None),
+    ("identifier-outside-target-alphabet", "go", {"package": "proto"}, "#[typeshare]\npub struct S { pub x\u0303b: u8 }\n"),
+    ("identifier-outside-target-alphabet", "go", {"package": "proto"}, "#[typeshare]\npub struct S { pub \u2167: u8 }\n"),
+    ("identifier-outside-target-alphabet", "kotlin", {"package": "com.example"}, "#[typeshare]\npub struct S { pub a\u00b7b: u8 }\n"),
+    ("identifier-outside-target-alphabet", "kotlin", {"package": "com.example"}, "#[typeshare]\npub enum E { A\u203fb, C }\n"),
+    ("go-receiver-lower-case-expansion", "go", {"package": "proto"},
+     "#[typeshare]\n#[serde(tag = \"t\", content = \"c\")]\npub enum \u0130nek { A(u8) }\n"),
+    ("variant-name-starts-with-non-ascii-digit", "kotlin", {"package": "com.example"},
+     "#[typeshare]\n#[serde(tag = \"t\", content = \"c\")]\npub enum E { _\u0663x(u8), B }\n"),
 ]
+# Classes the Unicode identifier part found on the unchanged tree.  KNOWN_FINDINGS.txt is where they belong (`open: property=C10
+# id=<id> <text>`); until the lines are there this table declares them open, so that they are replayed, counted and printed as
+# KNOWN-FINDING like the others (an entry of KNOWN_FINDINGS.txt with the same id takes precedence)
 # witnesses of repaired findings (python-generic-alias: f8d1040, python-docstring-escape: af54d85,
 # scala-package-without-dot: 653aee1): the oracle must accept the implementation's output now
 REPAIRED = [
@@ -261,7 +353,7 @@ DOC_EXTRA = [" see C:\\Users", " \\N", " \\x4z \\u12", " say \"hi\"", " it's", "
 KEY_TAGS = [("case", "content"), ("type", "default"), ("class", "value"), ("kind", "in"), ("from", "import"), ("t", "is")]
 VARIANT_EXTRA = ["Default", "Case", "In", "Is", "Do", "Type", "Any", "_1", "_2nd", "Class1"]
 # `inout` (Swift label keyword); names that are not keywords themselves but whose snake_case form is a Python keyword
-FIELD_EXTRA = ["inout", "from_", "in_", "as_", "is_", "_while", "class_", "not_", "_if", "lambda_"]
+FIELD_EXTRA = ["inout", "from_", "in_", "as_", "is_", "_while", "class_", "not_", "_if", "lambda_", "_1x", "_2fa_code", "__3"]
 
 
 def tweak(rng, lang, f, thorough):
@@ -344,11 +436,17 @@ def config_for(rng, lang):
     return cfg
 
 
-def make_cases(rng, lang, n, thorough):
+def make_cases(rng, lang, n, thorough, pools=None):
+    """`pools`: None, or a function (rng, lang) -> dict(fields, variants, types, renames, key_tags, feats) that gives every case its
+    own word lists for field / variant / type names, rename strings and tag / content keys (the Unicode identifier part)"""
     cases = []
     consts = lang in ("typescript", "go", "python")
+    saved = (genmod.FIELD_WORDS, genmod.VARIANT_WORDS, genmod.TYPE_WORDS, genmod.RENAME_WORDS)
     for i in range(n):
         multi = (i % 8 == 7)
+        pool = pools(rng, lang) if pools else None
+        if pool:
+            genmod.FIELD_WORDS, genmod.VARIANT_WORDS, genmod.TYPE_WORDS, genmod.RENAME_WORDS = pool["fields"], pool["variants"], pool["types"], pool["renames"]
         g = Gen(rng, p_cfg=0.0, p_edge=0.0, p_decorators=0.0, p_type_decorators=0.0, p_doc=0.45, p_redacted=0.1,
                 p_rename=0.25, p_default=0.06 if lang == "scala" else 0.25, p_generic=0.3, p_const=0.25 if consts else 0.0,
                 multi_file=multi, crates=["alpha", "beta_x"],
@@ -360,10 +458,12 @@ def make_cases(rng, lang, n, thorough):
         if not multi:
             f = g.file()
             feats = tweak(rng, lang, f, thorough)
+            if pool:
+                unicode_tweak(rng, f, pool)
             files = [{"crate": "", "file_name": "out", "path": "src/lib.rs", "file": f}]
             names = l2.names_of(f)
         else:
-            words = rng.sample(TYPE_WORDS, 8)
+            words = rng.sample(pool["types"] if pool else TYPE_WORDS, 8)
             split = {"alpha": words[:4], "beta_x": words[4:]}
             files, names = [], set()
             for crate, mine in split.items():
@@ -376,14 +476,189 @@ def make_cases(rng, lang, n, thorough):
                         f["items"].insert(0, {"kind": "use", "tree": ("upath", oc, ("uname", e))})
                 for k, v in tweak(rng, lang, f, thorough).items():
                     feats[k] = feats.get(k, 0) + v
+                if pool:
+                    unicode_tweak(rng, f, pool)
                 files.append({"crate": crate, "file_name": crate + ".out", "path": crate + "/src/lib.rs", "file": f})
                 names |= l2.names_of(f)
             rng.shuffle(files)
         m, r, texts = l2.requests(lang, cfg, files, g, multi_file=multi)
         for k, v in g.features.items():
             feats[k] = feats.get(k, 0) + v
+        if pool:
+            # count a class of names only where one of its names got into the program (as a whole word)
+            words_in_source = set(re.split(r"[\x00-\x2f\x3a-\x40\x5b-\x5e\x60\x7b-\x7f]+", "\n".join(texts))) | {""}
+            for k, names_ in pool["feats"].items():
+                hits = sum(1 for n_ in names_ if n_ in words_in_source)
+                if hits:
+                    feats[k] = feats.get(k, 0) + hits
         cases.append(dict(lang=lang, cfg=cfg, m=m, r=r, texts=texts, names=names, multi=multi, feats=feats))
+    genmod.FIELD_WORDS, genmod.VARIANT_WORDS, genmod.TYPE_WORDS, genmod.RENAME_WORDS = saved
     return cases
+
+
+# ------------------------------------------------------------------------------------------ Unicode identifiers
+
+# Letters a name (or a word inside it) may begin with.  Every one is XID_Start (a Rust identifier may begin with it) and a
+# letter (category L*) - so it belongs to the identifier alphabet of all six target languages; what differs is what the
+# Unicode case mappings make of it.
+UNI_FIRST = {
+    "plain-lower": "\u00e9\u00fc\u00f1\u00f8\u0111\u044f\u0436\u03bb",                 # é ü ñ ø đ я ж λ
+    "plain-upper": "\u00c9\u00dc\u00d1\u00d8\u0110\u042f\u0416\u039b\u023a",           # É Ü Ñ Ø Đ Я Ж Λ, Ⱥ (its lower case is longer in UTF-8)
+    "upper-case-is-several-letters": "\u00df\u0149\u0587\u1fb3\ufb01",                # ß->SS  ŉ->ʼN  և->ԵՒ  ᾳ->ΑΙ  ﬁ->FI
+    "upper-case-has-a-combining-mark": "\u01f0\u1e96\u1e97\u1e98\u1e99\u0390\u03b0",  # ǰ ẖ ẗ ẘ ẙ ΐ ΰ  (J + U+030C, ...)
+    "lower-case-has-a-combining-mark": "\u0130",                                      # İ -> i + U+0307
+    "title-case-digraph": "\u01c5\u01c8\u01cb\u01f2\u01c4\u01c6\u01f1\u01f3",         # ǅ ǈ ǋ ǲ (Lt) and their Ǆ ǆ Ǳ ǳ forms
+    "dotless-i-long-s": "\u0131\u017f",                                               # ı->I  ſ->S (the mappings do not round-trip)
+    "sigma": "\u03a3\u03c3\u03c2",                                                    # Σ σ ς (lower-casing Σ depends on its position)
+    "no-case": "\u65e5\u672c\u05d0\u0628\u0e01\u02b0\u30fc\u00aa",                    # 日 本 א ب ก (Lo), ʰ ー (Lm), ª (Lo)
+}
+UPPERISH = ("plain-upper", "lower-case-has-a-combining-mark", "no-case")
+# XID_Continue characters a Rust identifier may have after its first letter
+UNI_INSIDE = {
+    "decimal-digit(Nd)": "\u0663\u0969\uff13",                                        # ٣ ३ ３
+}
+# Rust identifier characters that are NOT in the identifier alphabet of some target language (Go: letters and Nd only;
+# Kotlin: letters, Nl, Nd): names with these are a class of their own (identifier-outside-target-alphabet)
+UNI_FOREIGN_FIRST = {"letter-number(Nl)": "\u2167\u2177\u3007\u16ee"}               # Ⅷ ⅷ 〇 ᛮ
+UNI_FOREIGN_INSIDE = {
+    "mark(Mn)": "\u0303\u0327\u0483\ufe20\u0308",                                  # combining tilde, cedilla, titlo, half ligature, diaeresis
+    "mark(Mc)": "\u093e\u0903\u0940",                                               # Devanagari vowel signs / visarga (spacing)
+    "connector(Pc)": "\u203f\uff3f",                                                 # ‿ ＿
+    "middle-dot(Other_ID_Continue)": "\u00b7",
+}
+ASCII_LOWER = "abcdefghijklmnopqrstuvwxyz"
+
+
+def uni_name(rng, style, foreign, feats, underscore_digit=False):
+    """one Rust identifier (NFC-stable, so that rustc and syn read the same name) with non-ASCII letters.
+    style: snake (words joined by `_`), pascal (capitalised words), upper (all capitals), flat (one word);
+    foreign: may use the characters of UNI_FOREIGN_*; feats: class -> list of names (for the counts)"""
+    for _ in range(100):
+        used = []
+        nwords = 1 if style == "flat" else rng.choice([1, 1, 2, 2, 3])
+        words = []
+        for w in range(nwords):
+            r = rng.random()
+            if r < 0.3 and not (w == 0 and nwords == 1):
+                first = rng.choice(ASCII_LOWER)
+            else:
+                pool = dict(UNI_FIRST)
+                if foreign and rng.random() < 0.3:
+                    pool = UNI_FOREIGN_FIRST
+                cls = rng.choice([c for c in pool if style != "upper" or c in UPPERISH or pool is UNI_FOREIGN_FIRST])
+                first = rng.choice(pool[cls])
+                used.append("unicode-first:" + cls)
+            rest = []
+            for _k in range(rng.choice([0, 1, 2, 2, 3, 4])):
+                r = rng.random()
+                if r < 0.62:
+                    rest.append(rng.choice(ASCII_LOWER))
+                elif r < 0.7:
+                    rest.append(rng.choice("0123456789"))
+                elif foreign and r < 0.8:
+                    cls = rng.choice(list(UNI_FOREIGN_INSIDE))
+                    rest.append(rng.choice(UNI_FOREIGN_INSIDE[cls]))
+                    used.append("unicode-inside:" + cls)
+                elif r < (0.86 if foreign else 0.78):
+                    cls = rng.choice(list(UNI_INSIDE))
+                    rest.append(rng.choice(UNI_INSIDE[cls]))
+                    used.append("unicode-inside:" + cls)
+                else:
+                    cls = rng.choice([c for c in UNI_FIRST if style != "upper" or c in UPPERISH])
+                    rest.append(rng.choice(UNI_FIRST[cls]))
+                    used.append("unicode-inside:" + cls)
+            word = first + "".join(rest)
+            if style == "pascal" and word[0].isascii():
+                word = word[0].upper() + word[1:]
+            if style == "upper":
+                word = "".join(ch.upper() if ch.isascii() else ch for ch in word)
+            words.append(word)
+        name = ("" if style == "pascal" else "_").join(words)
+        if underscore_digit and style == "pascal" and rng.random() < 0.1:
+            # the leading-digit rule of the Kotlin / Swift / Scala back ends looks at the first character after the underscores
+            name = "_" + rng.choice(UNI_INSIDE["decimal-digit(Nd)"]) + name
+            used.append("unicode-first:underscore-then-non-ascii-digit")
+        if name.isascii() or unicodedata.normalize("NFC", name) != name or not name.isidentifier():
+            continue
+        for k in used:
+            feats.setdefault(k, []).append(name)
+        return name
+    raise InfraError("uni_name: no name found")
+
+
+def unicode_pools(rng, lang):
+    """word lists of one case: names over the alphabet above in every naming position, next to a few ASCII words"""
+    foreign = rng.random() < 0.2
+    feats = {}
+    if foreign:
+        feats["unicode-case-with-characters-outside-a-target-alphabet"] = [""]
+
+    def some(n, styles, underscore_digit=False):
+        out = []
+        while len(out) < n:
+            x = uni_name(rng, rng.choice(styles), foreign, feats, underscore_digit)
+            if x not in out:
+                out.append(x)
+        return out
+    fields = some(9, ["snake", "snake", "snake", "flat", "pascal", "upper"]) + rng.sample(genmod_ascii["fields"], 3)
+    variants = some(9, ["pascal", "pascal", "pascal", "upper", "flat"], underscore_digit=foreign) + rng.sample(genmod_ascii["variants"], 2)
+    types = some(10, ["pascal", "pascal", "pascal", "upper"])
+    renames = some(5, ["snake", "pascal", "flat"]) + ["-".join(some(2, ["flat"])), "renamed", "with-dash"]
+    key_tags = [tuple(some(2, ["flat", "snake", "pascal"])) for _ in range(3)]
+    item_renames = some(6, ["pascal", "pascal", "upper"])
+    return dict(fields=fields, variants=variants, types=types, renames=renames, key_tags=key_tags, item_renames=item_renames, feats=feats)
+
+
+genmod_ascii = {"fields": list(genmod.FIELD_WORDS), "variants": list(genmod.VARIANT_WORDS)}
+
+
+def unicode_tweak(rng, f, pool):
+    """tag / content keys and item-level renames from the case's Unicode pool"""
+    fresh = list(pool["item_renames"])
+
+    def items(its):
+        for it in its:
+            k = it["kind"]
+            if k in ("mod", "other"):
+                items(it["items"])
+                continue
+            if k not in ("struct", "enum", "alias"):
+                continue
+            tag, content = rng.choice(pool["key_tags"])
+            keys = k == "enum" and rng.random() < 0.6
+            ren = fresh.pop() if fresh and rng.random() < 0.6 else None
+            new = []
+            for a in it["attrs"]:
+                if a[0] == "l" and a[1] == ["serde"] and a[2]:
+                    args = []
+                    for x in a[3]:
+                        if keys and x[0] == "nv" and x[1] == ["tag"]:
+                            x = m_nv("tag", lit_s(tag))
+                        elif keys and x[0] == "nv" and x[1] == ["content"]:
+                            x = m_nv("content", lit_s(content))
+                        elif ren and x[0] == "nv" and x[1] == ["rename"]:
+                            x = m_nv("rename", lit_s(ren))
+                        args.append(x)
+                    a = m_list("serde", args)
+                new.append(a)
+            it["attrs"] = new
+    items(f["items"])
+
+
+def unicode_identifiers_part(check, reported_langs):
+    """identifiers beyond ASCII.  The dimension: field, variant, type and constant names, rename strings, item renames and tag /
+    content keys built from letters at the corners of the Unicode case mappings - upper-case form of several letters (ß ŉ և ᾳ ﬁ)
+    or with a combining mark (ǰ ẖ ẗ ẘ ẙ ΐ ΰ), lower-case form with a combining mark (İ), title-case digraphs (ǅ ...), dotless ı and
+    long ſ, the three sigmas, letters without case (Lo, Lm), non-ASCII decimal digits inside a name; as snake_case, PascalCase,
+    ALL-CAPITALS and one-word names, alone or mixed with ASCII; in one case out of five also Rust identifier characters that some
+    target language does not have in its identifier alphabet (combining marks, letter numbers, connector punctuation, the middle
+    dot, `_` + non-ASCII digit) - through the same generator, configurations, model comparison and oracles as the main sweep, all
+    six back ends.  Demanded: every name position of the implementation's output holds an identifier of the target language (per-
+    language alphabets of c10_syntax.id_start / id_part, CPython for Python), i.e. no case mapping or escaping step of a back end
+    leaves the language's alphabet; and the text equals the model's"""
+    n = 2500 if check.thorough else 260
+    for lang in LANGS:
+        sweep(check, lang, make_cases(check.rng, lang, n, check.thorough, pools=unicode_pools), reported_langs, part="unicode-identifiers")
 
 
 # ------------------------------------------------------------------------------------------ python import (thorough)
@@ -513,6 +788,75 @@ def files_on_disk_part(check):
                         return
 
 
+def unescape_marks(ans):
+    """the answer with every `\\u{hex}` that stands for a nonspacing / enclosing mark replaced by the mark itself"""
+    def un(m):
+        ch = chr(int(m.group(1), 16))
+        return ch if unicodedata.category(ch) in ("Mn", "Me") else m.group(0)
+    return {"ok": {k: re.sub(r"\\u\{([0-9a-f]{1,6})\}", un, v) for k, v in ans["ok"].items()}}
+
+
+def sweep(check, lang, cases, reported_langs, part=""):
+    """model and implementation on every case; the oracle on the implementation's output.  At most one failing input and one
+    broken-correspondence report per language (and part); the latter never hides the former"""
+    names = set().union(*[c["names"] for c in cases]) if lang == "python" else None
+    mans = [l2.norm(a) for a in model([c["m"] for c in cases], names=names)]
+    rans_raw = runner([c["r"] for c in cases])
+    # the Lean specification on the implementation's text (ties `lexOk` to real outputs)
+    lex_reqs, lex_idx = [], []
+    for i, ra_raw in enumerate(rans_raw):
+        for name, text in sorted(ra_raw.get("ok", {}).items()) if isinstance(ra_raw.get("ok"), dict) else []:
+            lex_reqs.append([S("lexok"), S(lang), text])
+            lex_idx.append((i, name))
+    lex_ans = model(lex_reqs, with_unicode=False) if lex_reqs else []
+    lexok = {}
+    for (i, name), a in zip(lex_idx, lex_ans):
+        lexok.setdefault(i, {})[name] = a.get("ok")
+    for ci, (c, ma, ra_raw) in enumerate(zip(cases, mans, rans_raw)):
+        ra = l2.norm(ra_raw)
+        key = (lang, json.dumps(c["cfg"], sort_keys=True), "\n".join(c["texts"]))
+        check.saw(key, nontrivial="ok" in ra)
+        check.count("%s%s-%s" % (part and part + ":", lang, "ok" if "ok" in ra else "rejected-input"))
+        for k, v in c["feats"].items():
+            if k.startswith("unicode-"):
+                check.count(k, v)
+            elif not part and k in ("keyword-tag", "type-override", "decorator", "doc", "item-rename", "rename", "default", "const", "alias", "enum", "struct"):
+                check.count(k, v)
+        agree = ma == ra
+        if not agree and part and "ok" in ma and "ok" in ra and unescape_marks(ra) == ma:
+            # typeshare writes string literals through Rust's escape_debug, which spells a Grapheme_Extend character (every
+            # nonspacing mark) `\u{..}`; the model copies the character.  Only names with such marks (Rust identifiers may have
+            # them after the first letter) show the difference; it is counted, not reported
+            check.count(part + ":model-agrees-modulo-escaped-nonspacing-marks")
+            agree = True
+        bad = judge(check, c, ra_raw, lexok.get(ci, {})) if "ok" in ra_raw else []
+        # one failing input and one broken-correspondence report per language; the latter never hides the former
+        reported = (lang, "failing" + part) in reported_langs
+        if bad and not reported:
+            name, text, rej, why = bad[0]
+            reported_langs.add((lang, "failing" + part))
+            out_lines = text.split("\n")
+            at = rej.tok[2] if rej.tok else 0
+            shown = "; line %d of the output is %s" % (at, json.dumps(out_lines[at - 1].strip(), ensure_ascii=False)) if 0 < at <= len(out_lines) else ""
+            check.violation("%s%s output is not well-formed: %s%s; %s" % (part and part + ": ", lang, rej.describe(), shown, why),
+                            case={"lang": lang, "config": c["cfg"], "source": c["texts"], "request": c["r"]},
+                            impl={"file": name, "text": text}, model=ma if not agree else "(agrees with the implementation)",
+                            failing_input=True)
+        elif not agree and not bad and (lang, "weak" + part) not in reported_langs and not reported:
+            reported_langs.add((lang, "weak" + part))
+            diff = None
+            if "ok" in ma and "ok" in ra:
+                for k in ra["ok"]:
+                    diff = diff or l2.text_diff(ma["ok"].get(k, ""), ra["ok"][k])
+            check.violation("%s%s generator differs from the model (%s); the oracle accepts the implementation's text" % (part and part + ": ", lang, diff or "different outcome"),
+                            case={"lang": lang, "config": c["cfg"], "source": c["texts"], "request": c["r"]},
+                            impl=ra, model=ma, failing_input=False,
+                            broken="correspondence L2 %s generate_types byte-exact (hypotheses of TsV.C10.* are about this model)" % lang)
+        if len(check.samples) < 6 and "ok" in ra and lang not in [s_["lang"] for s_ in check.samples]:
+            check.sample({"lang": lang, "config": c["cfg"], "source": c["texts"][0][:600],
+                          "output": list(ra["ok"].values())[0][:600]})
+
+
 def run(check):
     rng = check.rng
     per_lang = 20000 if check.thorough else 1800
@@ -521,7 +865,10 @@ def run(check):
                   "optionals and serde(default), redaction, decorators and lang-valid type overrides, type mappings, doc comments "
                   "on every level over an alphabet with quotes, back-slashes, comment openers and brackets (C15's bad classes — "
                   "newline, `*/`, `\"\"\"` — excluded), keyword field/variant/tag names; header, package and prefix settings; "
-                  "1 in 8 cases multi-file; x 6 languages.  non-trivial = the implementation produced at least one output file "
+                  "1 in 8 cases multi-file; x 6 languages.  Unicode identifier part: the same generator with field / variant / type / "
+                  "constant names, renames, item renames and tag / content keys over letters at the corners of the Unicode case mappings "
+                  "(several-letter and mark-bearing upper / lower-case forms, title-case digraphs, dotless i, long s, sigmas, caseless "
+                  "letters, non-ASCII digits; 1 case in 5 also marks, letter numbers, connectors, middle dot).  non-trivial = the implementation produced at least one output file "
                   "that went through the oracle")
     genmod.DOC_WORDS = list(genmod.DOC_WORDS) + DOC_EXTRA
     genmod.VARIANT_WORDS = list(genmod.VARIANT_WORDS) + VARIANT_EXTRA
@@ -530,52 +877,8 @@ def run(check):
     genmod.TYPE_WORDS = list(genmod.TYPE_WORDS) + ["Type", "Protocol", "Any"]
     reported_langs = set()
     for lang in LANGS:
-        cases = make_cases(rng, lang, per_lang, check.thorough)
-        names = set().union(*[c["names"] for c in cases]) if lang == "python" else None
-        mans = [l2.norm(a) for a in model([c["m"] for c in cases], names=names)]
-        rans_raw = runner([c["r"] for c in cases])
-        # the Lean specification on the implementation's text (ties `lexOk` to real outputs)
-        lex_reqs, lex_idx = [], []
-        for i, ra_raw in enumerate(rans_raw):
-            for name, text in sorted(ra_raw.get("ok", {}).items()) if isinstance(ra_raw.get("ok"), dict) else []:
-                lex_reqs.append([S("lexok"), S(lang), text])
-                lex_idx.append((i, name))
-        lex_ans = model(lex_reqs, with_unicode=False) if lex_reqs else []
-        lexok = {}
-        for (i, name), a in zip(lex_idx, lex_ans):
-            lexok.setdefault(i, {})[name] = a.get("ok")
-        for ci, (c, ma, ra_raw) in enumerate(zip(cases, mans, rans_raw)):
-            ra = l2.norm(ra_raw)
-            key = (lang, json.dumps(c["cfg"], sort_keys=True), "\n".join(c["texts"]))
-            check.saw(key, nontrivial="ok" in ra)
-            check.count("%s-%s" % (lang, "ok" if "ok" in ra else "rejected-input"))
-            for k, v in c["feats"].items():
-                if k in ("keyword-tag", "type-override", "decorator", "doc", "item-rename", "rename", "default", "const", "alias", "enum", "struct"):
-                    check.count(k, v)
-            agree = ma == ra
-            bad = judge(check, c, ra_raw, lexok.get(ci, {})) if "ok" in ra_raw else []
-            # one failing input and one broken-correspondence report per language; the latter never hides the former
-            reported = (lang, "failing") in reported_langs
-            if bad and not reported:
-                name, text, rej, why = bad[0]
-                reported_langs.add((lang, "failing"))
-                check.violation("%s output is not well-formed: %s; %s" % (lang, rej.describe(), why),
-                                case={"lang": lang, "config": c["cfg"], "source": c["texts"], "request": c["r"]},
-                                impl={"file": name, "text": text}, model=ma if not agree else "(agrees with the implementation)",
-                                failing_input=True)
-            elif not agree and not bad and (lang, "weak") not in reported_langs and not reported:
-                reported_langs.add((lang, "weak"))
-                diff = None
-                if "ok" in ma and "ok" in ra:
-                    for k in ra["ok"]:
-                        diff = diff or l2.text_diff(ma["ok"].get(k, ""), ra["ok"][k])
-                check.violation("%s generator differs from the model (%s); the oracle accepts the implementation's text" % (lang, diff or "different outcome"),
-                                case={"lang": lang, "config": c["cfg"], "source": c["texts"], "request": c["r"]},
-                                impl=ra, model=ma, failing_input=False,
-                                broken="correspondence L2 %s generate_types byte-exact (hypotheses of TsV.C10.* are about this model)" % lang)
-            if len(check.samples) < 6 and "ok" in ra and lang not in [s_["lang"] for s_ in check.samples]:
-                check.sample({"lang": lang, "config": c["cfg"], "source": c["texts"][0][:600],
-                              "output": list(ra["ok"].values())[0][:600]})
+        sweep(check, lang, make_cases(rng, lang, per_lang, check.thorough), reported_langs)
+    unicode_identifiers_part(check, reported_langs)
     replay_witnesses(check)
     replay_repaired(check)
     replay_not_full(check)
